@@ -278,10 +278,14 @@ StrBehs ==
 StrMenu(info, fuel, cu) ==
     IF Len(cu.sc) = 0 /\ cu.call.k = "execute" /\ cu.call.msgs[1].k = "exec" /\ cu.call.msgs[1].to = A
     THEN {WSub(info, <<Sub(Exec(B, <<>>), 1, "", on)>>) : on \in {"never", "error", "always", "success"}}
+    (* the reply handler takes every string when the child's response was fine; at Level 2 (strings of up to 3
+       characters over 6 classes: 1043 behaviours) only below the plain child B0: one node varies at a time, the
+       product child x reply is > 2 x 10^6 programs *)
     ELSE IF info.entry = "reply" /\ cu.sc[Len(cu.sc)].fail = FALSE /\ ~BadResponse(cu.sc[Len(cu.sc)]) /\ Len(cu.sc) > 1
+            /\ (Level = 1 \/ cu.sc[Len(cu.sc)] = B0)
     THEN StrBehs
     ELSE IF info.entry = "reply" THEN {B0}
-    ELSE StrBehs
+    ELSE StrBehs \cup {B0}
 StrCalls(rt, cd, n) ==
     { ExecuteCall("u1", << Exec(B, <<>>) >>),
       ExecuteCall("u1", << Exec(A, <<>>) >>),
